@@ -103,6 +103,8 @@ def families(tier):
     fam['ng2_all10_long'] = (lambda: models_ngram2([0, 10], [0, 10, ABSENT], [0], [6, 7]), 'levels', range(0, 82))
     # histories
     fam['ng2_hist'] = (lambda: models_ngram2([0, 1], [0, 1, 2, ABSENT], [0, 1], [3, 4]), 'pairs')
+    # histories on models with a length of level 2 (the length walk has to step over an empty level 1, also in a generator that loaded a session)
+    fam['ng2_hist_ln2'] = (lambda: models_ngram2([0, 1], [0, 1, ABSENT], [0, 2], [3, 4]), 'pairs')
     if tier == 'thorough':
         fam['ng2_abc'] = (models_ngram2_abc, 'levels')
         fam['ng3'] = (lambda: models_ngram3([(0, 1, 1, ABSENT), (0, 0, 1, 2), (1, ABSENT, 0, 0)], [0, 1, ABSENT],
@@ -129,7 +131,7 @@ def shards(tier):
 def bounds(tier):
     return {'families': sorted(families(tier)), 'target_levels': '0..7 (0..20, 0..30 and 0..81 on the high-level families)', 'alphabet': '{a,b} ({a,b,c} sub-sweep in thorough)',
             'ngram': '2 (3 in thorough)', 'level_values': '{0,1,2,absent} (+10 in ng2_lvl10)',
-            'histories': 'fresh optimizer per level; one optimizer over levels ascending and descending; all ordered pairs (L1,L2) in 0..5; L1 paused after every j, L2 run, L1 resumed'}
+            'histories': 'fresh optimizer per level; one optimizer over levels ascending and descending; all ordered pairs (L1,L2) in 0..5; L1 paused after every j, L2 run, L1 resumed; L1 saved after every j, loaded into a new generator and finished'}
 
 
 def drain(mc, cap=100000):
@@ -222,6 +224,33 @@ def explore_model(mods, m, mode, acc, counting=True, levels=None):
                         break
                 if fails:
                     break
+            # one more kind of history: the generator is saved after j guesses (what a quit does), and a NEW generator - built for level 1, as
+            # restore_omen builds it - loads the session and finishes the level: both parts together are the level
+            if not fails:
+                import os
+                spath = os.path.join(tree.tmp_root(), 'pcfgmc-c10-%d.omn' % os.getpid())
+                for L1 in hl:
+                    n1 = sum(ref.get(L1, Counter()).values())
+                    for j in range(1, n1):
+                        a = gen(L1, Optimizer(max_length=4))
+                        part = [a.next_guess() for _ in range(j)]
+                        a.save_session(spath)
+                        b = MarkovCracker(g, 1, Optimizer(max_length=4))
+                        b.load_session(spath, {'pt': [['M', 0, 0]], 'prob': 0.5, 'level': 0})
+                        rest = drain(b)
+                        if counting:
+                            acc.states += 2
+                            acc.transitions += len(part) + len(rest) + 1
+                        msg = cmp_level(part + rest, ref, L1)
+                        if msg:
+                            fails.append(('history', 'gen(%d) saved after %d guesses, loaded into a new generator and finished: %s' % (L1, j, msg)))
+                            break
+                    if fails:
+                        break
+                try:
+                    os.unlink(spath)
+                except OSError:
+                    pass
     except RecursionError:
         fails.append(('raise', 'RecursionError'))
     except Exception as e:   # noqa
